@@ -12,6 +12,8 @@ int main(int argc, char** argv) {
     if (layer == "tbl") return vh::run_tbl(argc - 2, argv + 2);
     if (layer == "os") return vh::run_os(argc - 2, argv + 2);
     if (layer == "wr") return vh::run_wr(argc - 2, argv + 2);
+    if (layer == "thr") return vh::run_thr(argc - 2, argv + 2);
+    if (layer == "fz") return vh::run_fz(argc - 2, argv + 2);
     std::fprintf(stderr, "unknown layer %s\n", layer.c_str());
     return 2;
 }
